@@ -167,6 +167,19 @@ def audit(files=None):
 
 
 def coq_eval(imports, exprs, timeout=600, shard=None, tag="x"):
+    """Evaluate; cases left without an answer (an error aborts the rest of a shard) are retried
+    one per file so that one bad case cannot hide the others."""
+    results, errors = _coq_eval_once(imports, exprs, timeout, shard, tag)
+    missing = [i for i, r in enumerate(results) if r is None]
+    if missing and len(missing) < len(exprs):
+        sub, errs2 = _coq_eval_once(imports, [exprs[i] for i in missing], timeout, len(missing) if len(missing) <= 64 else None, tag + "r")
+        for i, r in zip(missing, sub):
+            results[i] = r
+        errors = errs2 if all(r is not None for r in results) else errors + errs2
+    return results, errors
+
+
+def _coq_eval_once(imports, exprs, timeout=600, shard=None, tag="x"):
     """Evaluate Gallina expressions of type string with vm_compute, sharded over coqc processes.
     Returns the list of resulting strings (None where evaluation failed)."""
     if not exprs:
@@ -185,7 +198,7 @@ def coq_eval(imports, exprs, timeout=600, shard=None, tag="x"):
             f.write(imports + "\nSet Printing Width 10000000.\nSet Printing Depth 10000000.\nOpen Scope string_scope.\n")
             for i, e in ch:
                 f.write(f'Eval vm_compute in ("#{i}#" ++ ({e}))%string.\n')
-        p = subprocess.Popen(["coqc", "-noglob", "-Q", COQ, "Verif", "-w", "-all", path],
+        p = subprocess.Popen(["bash", "-c", f"ulimit -s unlimited 2>/dev/null; exec coqc -noglob -Q {COQ} Verif -w -all {path}"],
                              stdout=subprocess.PIPE, stderr=subprocess.STDOUT, text=True, cwd=COQ)
         procs.append((p, path))
     results = [None] * len(exprs)
